@@ -168,6 +168,8 @@ def main():
             continue
         if m is not None and strip_oracle(i) != strip_oracle(m):
             disagreements.append(k)
+    if getattr(prop, "aggregate", None):
+        oracle_fail.extend(prop.aggregate(lines, impl))
     known = V.known_findings(pid)
     new_fail = []
     known_hits = {}
